@@ -16,7 +16,8 @@
   `fetch_add`; a ticket is published once the slot of the previous round was released; the batch pop
   takes a prefix of published tickets and, if the head was already published when it began, at least one.
 -/
-import Babylon.GC.LemmasAll
+import Babylon.GC.LiveMain
+import Babylon.GC.LiveEnabled
 
 namespace Babylon.Properties.C10
 open Babylon.GC Babylon.Core
@@ -285,6 +286,46 @@ has been seen; `stop()` returns only after that -/
 theorem gc_collector_done (c : Cfg) (s : State) (h : Reach c s) :
     (s.cpc = .done → s.running = false ∧ s.tasks.drop s.index = []) ∧ (s.stop = .returned → s.cpc = .done) :=
   ⟨(reach_inv h).k.fin, (reach_inv h).k.ret⟩
+
+/-! ### `stop()` returns -/
+
+/-- **Termination of `stop()`** (the liveness half of "no later than the return of `stop()`").
+`x` is any infinite execution of the model (stuttering allowed); from some moment `n0` on
+(`Fair x n0`, spelled out in Babylon/GC/Live.lean):
+* client contract — `stop()` has been called, no `retire` call is in flight and none starts, nobody
+  ticks (new regions may still be entered and left at will);
+* fairness — the collector thread is scheduled again and again until it has finished, the stopping
+  thread whenever one of its actions is enabled; capacity ≥ 1;
+* environment — at `n0` no slot holds (or is about to store) an epoch below the global version,
+  i.e. **every critical region that was entered before the last tick has been closed** ("every
+  region open at stop eventually closes"; regions entered later never block and may stay open).
+Then `stop()` returns.  Without the last hypothesis `stop()` legitimately waits for ever
+(`gc_never_early` forbids the collector to invoke the blocked reclaimer, `gc_collector_done` forbids
+it to exit before). -/
+theorem gc_stop_terminates (c : Cfg) (x : Exec c) (n0 : Nat) (hf : Fair x n0) :
+    ∃ n, (x.σ n).stop = .returned :=
+  stop_terminates x n0 hf
+
+/-- both halves together: under the same hypotheses there is a moment at which `stop()` has
+returned and every reclaimer whose `retire` obtained its ticket before `stop()` was called has been
+invoked — exactly once (`gc_at_most_once`). -/
+theorem gc_stop_returns_with_all_invoked (c : Cfg) (x : Exec c) (n0 : Nat) (hf : Fair x n0) :
+    ∃ n, (x.σ n).stop = .returned ∧ (x.σ n).invoked.Nodup ∧
+      ∀ id e k p, (x.σ n).calls id = .done e k → (x.σ n).pushAtStop = some p → k < p → id ∈ (x.σ n).invoked := by
+  obtain ⟨n, hn⟩ := stop_terminates x n0 hf
+  exact ⟨n, hn, invoked_nodup (x.reach n), fun id e k p h1 h2 h3 => gc_all_before_stop c _ (x.reach n) hn id e k p h1 h2 h3⟩
+
+/-- the fairness hypothesis on the collector is satisfiable: until it has finished, the collector
+thread always has an enabled action (so a scheduler can always run it) -/
+theorem gc_collector_always_enabled (c : Cfg) (s : State) (hcap : 1 ≤ c.cap) (h : Reach c s)
+    (hnd : s.cpc ≠ .done) : ∃ l, l.isColl = true ∧ (step c s l).isSome = true :=
+  collector_enabled hcap h hnd
+
+/-- … and the environment hypothesis persists once it holds: without ticks, a region entered later
+reads the current global version -/
+theorem gc_no_stale_persists (c : Cfg) (s s' : State) (l : Lbl) (hq : Quiet s) (hn : NoStale s)
+    (hl : l.retiring = false) (h : step c s l = some s') : NoStale s' :=
+  noStale_step hq hn hl h
 
 /-! ### non-vacuity and the pre-repair loop -/
 
